@@ -44,4 +44,12 @@ broadcast use {vstd::std_specs::hash::group_hash_axioms, axh::axiom_uuid_key_mod
 //@watch C18 :: src/workingset.rs :: impl WorkingSet :: fn is_empty
 //@watch C18 :: src/workingset.rs :: impl WorkingSet :: fn by_uuid
 //@watch C18 :: src/workingset.rs :: impl WorkingSet :: fn iter
+//@watch C18 C19 :: src/task/tag.rs :: impl FromStr for Tag
+//@watch C18 C19 :: src/task/tag.rs :: impl TryFrom<&str> for Tag
+//@watch C18 C19 :: src/task/tag.rs :: impl TryFrom<&String> for Tag
+//@watch C18 C19 :: src/task/tag.rs :: impl Tag
+//@watch C18 C19 :: src/task/tag.rs :: enum SyntheticTag
+//@watch C18 C19 :: src/depmap.rs :: impl DependencyMap
+//@watch C18 C19 :: src/task/task.rs :: fn uda_string_to_tuple
+//@watch C18 C19 :: src/task/task.rs :: fn uda_tuple_to_string
 //@include prelude/tail.rs
